@@ -27,6 +27,8 @@ def known_match(f, sc):
 def run(rep, tier, seed, proof_broken=False):
     import vlib.props.C09 as me
     histprop.run(rep, me, tier, seed, proof_broken)
+    from vlib import stagefault
+    stagefault.phase(rep, "C09", tier, seed, committed=False)
 
 
 def replay(rep, payload):
